@@ -746,5 +746,5 @@ func ammodecExtra(t *tr) string {
 		x.fail(p, nil, "struct entity not found")
 	}
 	w("/-- fields of `entity`: (Go field, json tag, type) -/\ndef entityFields : List (String × String × String) := [%s]\n", strings.Join(tags, ", "))
-	return b.String()
+	return b.String() + ammodecR4(t)
 }
